@@ -186,3 +186,17 @@ package invocation
 //@   requires t != nil
 //@   ensures [C10] wf: (result == nil) == wfInv(t)
 //@   assigns [C20] nothing
+//@
+//@ func tokenFromModel
+//@   requires m.Args != nil && m.Args.Values != nil && (forall k string :: has(m.Args.Values, k) ==> m.Args.Values[k] != nil)
+//@   ensures [C10] wellformed: result1 == nil ==> result0 != nil && wfInv(result0)
+//@   ensures [C10] command: result1 == nil ==> validCmd(string(result0.command)) && string(result0.command) == m.Cmd
+//@   ensures [C10] times: result1 == nil ==> inSafeRange(m.Exp) && inSafeRange(m.Iat)
+//@   ensures [C10] argints: result1 == nil ==> argsInBounds(m.Args)
+//@   ensures [C10] fields: result1 == nil ==> hasPrefix(m.Iss, "did:key:") && hasPrefix(m.Sub, "did:key:") && result0.nonce == m.Nonce && result0.proof == m.Prf
+//@
+//@ func New
+//@   requires forall i int :: 0 <= i && i < len(opts) ==> opts[i] != nil
+//@   ensures [C10] wellformed: result1 == nil ==> result0 != nil && wfInv(result0)
+//@   loop 0: invariant 0 <= k && k <= len(opts)
+//@           decreases len(opts) - k
